@@ -23,7 +23,7 @@ from mc.ref import rulelang
 PID = "C07"
 ENGINE = "E1 bounded-exhaustive enumeration (patterns x rows) against a reference token matcher"
 RULE = ("Part A: every pattern of <=K body tokens over {a,b,ab,*,*/[ab]+/,*/[0-9]+/} with tail in {none,~,...} and "
-        "optional (?i), crossed with every row of <=W words over {a,b,ab,A,1,a1} (plus double-blank variants); a "
+        "optional (?i), plus every pattern of <=3 tokens with one literal alternative ((a|b), (?:a|ab)) next to a '*' placeholder, crossed with every row of <=W words over {a,b,ab,A,1,a1} (plus double-blank variants); a "
         "(pattern,row) pair is one case, distinct by construction; non-trivial = the reference says the row matches. "
         "Part B: every distinct rule line of the shipped rulebook texts with a synthesised matching row and its "
         "near-miss mutations; non-trivial = a row could be synthesised.")
@@ -61,6 +61,24 @@ def patterns(k):
                 p = " ".join(toks)
                 out.append(p)
                 out.append("(?i)" + p)
+    return out
+
+
+def group_patterns(k=3):
+    """patterns with one parenthesised alternative of literals, (a|b) or (?:a|b), next to at least one placeholder:
+    the alternative takes one word and is not part of the key"""
+    out = []
+    for g in ("(a|b)", "(?:a|ab)"):
+        for n in range(1, k):
+            for body in itertools.product(BODY, repeat=n):
+                for pos in range(n + 1):
+                    for tail in TAILS:
+                        toks = list(body[:pos]) + [g] + list(body[pos:]) + ([tail] if tail else [])
+                        if not any(t.startswith("*") for t in toks) and tail != "~":
+                            continue
+                        if "*" not in " ".join(toks):
+                            continue   # '(a|b) ~' has no '*': groups stay as written - outside the claim
+                        out.append(" ".join(toks))
     return out
 
 
@@ -264,7 +282,7 @@ def run_block(block, ctx):
 def run_a(block, ctx):
     from annet.annlib.rbparser import syntax
     k, w = (3, 4) if ctx.tier == "quick" else (4, 5)
-    pats = patterns(k)[block["i"]::NB]
+    pats = (patterns(k) + group_patterns(3))[block["i"]::NB]
     rws = rows(w)
     short_rows = rows(2)
     for p in pats:
